@@ -40,6 +40,8 @@ def main():
         for p in sorted(glob.glob(os.path.join(base, "*.patch"))):
             name = os.path.basename(p)[:-6]
             patches.append((name, p, name.split("-")[0]))
+    if a.expect_clean:
+        patches = [(n, p, "all") for n, p, _ in patches]
     results = {}
     rfile = os.path.join(base, "RESULTS.json")
     if os.path.exists(rfile) and a.only:
@@ -64,6 +66,20 @@ def main():
             t0 = time.time()
             env = dict(os.environ, VERIF_REPO=d)
             env.pop("DST_BOOTED", None)
+            if a.expect_clean:
+                exits = {}
+                for pr in ("C15", "C09", "C20"):
+                    c = run([os.path.join(VERIF, "check"), pr, "--tier", a.tier], env=env)
+                    exits[pr] = c.returncode
+                    if c.returncode != 0:
+                        entry["output_%s" % pr] = (c.stdout + c.stderr)[-800:]
+                entry["exits"] = exits
+                entry["seconds"] = round(time.time() - t0, 1)
+                entry["clean"] = all(v == 0 for v in exits.values())
+                results[name] = entry
+                print(name, "clean" if entry["clean"] else "FALSE-ALARM %s" % exits, entry["seconds"], "s",
+                      entry.get("tests", ""), flush=True)
+                continue
             c = run([os.path.join(VERIF, "check"), prop, "--tier", a.tier], env=env)
             entry["exit"] = c.returncode
             entry["seconds"] = round(time.time() - t0, 1)
@@ -81,8 +97,11 @@ def main():
             subprocess.run(["git", "-C", "/repo", "worktree", "remove", "--force", d])
             subprocess.run(["rm", "-rf", d])
         json.dump(results, open(rfile, "w"), indent=1, sort_keys=True)
-    det = sum(1 for e in results.values() if e.get("detected"))
-    print("%d/%d detected" % (det, len(results)))
+    if a.expect_clean:
+        print("%d/%d clean" % (sum(1 for e in results.values() if e.get("clean")), len(results)))
+    else:
+        det = sum(1 for e in results.values() if e.get("detected"))
+        print("%d/%d detected" % (det, len(results)))
 
 
 if __name__ == "__main__":
